@@ -104,6 +104,10 @@ def relay_replay_plan(ob):
         cases = [{'driver': 'copy_half', 'args': {'source': '68656c6c6f776f726c6421', 'pieces': [5, 6], 'buffer_size': 16, 'counted_before': 0, 'dst_closes_after': 5}},
                  {'driver': 'copy_half', 'args': {'source': '6162636465', 'pieces': [1, 4], 'buffer_size': 8, 'counted_before': 0, 'dst_closes_after': 1}}]
         return 'relay', cases, lambda o: o.get('counted') is not None and o.get('counted') > len(o.get('delivered', '')) // 2
+    if (ob.target or '') == 'copy_bidi (completion)' and 'ended-with-an-error' in ob.label:
+        # one peer resets its TCP connection (SO_LINGER 0): at once, or after the other direction has ended cleanly
+        cases = [{'driver': 'bidi_reset', 'args': {'failing': w, 'after_clean_end_of_other': late}} for w in ('server', 'client') for late in (True, False)]
+        return 'relay', cases, lambda o: o.get('ok') is True and o.get('peer_was_reset') is True
     if f is not None and (ob.target or '') == 'copy_half abort' and ob.label.startswith('C04/relay/'):
         return 'relay', {'driver': 'copy_half_reset', 'args': {}}, lambda o: o.get('ok') is True and o.get('source_was_reset') is True
     if f is None or (ob.target or '') != 'copy_half':
@@ -219,23 +223,52 @@ def check_copy_bidi_completion(ck):
 
     def is_timeout(ctx):
         return Bool(z3.BoolVal(False))      # idleness is C13's subject: here no direction is idle
-    for rx, f in ((r'Context::set_state$', set_state), (r'ContextStatistics::is_timeout$', is_timeout)):
+    import contracts_async as CA
+
+    def copy_half(ctx):
+        # each direction is an arbitrary future: every poll finds it not ready, ended cleanly, or ended with an error
+        n = sum(1 for e in ctx.st.trace if e[0] == 'half-created')
+        ctx.st.trace.append(('half-created', n))
+        return Future('copy-half', [n])
+
+    def await_half(ctx, fut):
+        ex, st = ctx.ex, ctx.st
+        n = fut.args[0]
+        if any(e[0] == 'half-ended' and e[1] == n for e in st.trace):
+            ex.prove(st, 'C04/copy_bidi/a-direction-that-has-ended-is-not-polled-again', z3.BoolVal(False))
+        s_err, s_wait = st.fork(), st.fork()
+        st.trace.append(('half-ended', n, 'ok'))
+        s_err.trace.append(('half-ended', n, 'err'))
+        return [(st, CA.mk_result(ex, ok=UNIT)), (s_err, CA.mk_result(ex, err=Opaque('anyhow::Error', ('relay', n)))), (s_wait, CA.NOT_READY)]
+    CA.AWAIT['copy-half'] = await_half
+    for rx, f in ((r'Context::set_state$', set_state), (r'ContextStatistics::is_timeout$', is_timeout), (r'^copy_half::<|^copy_half$', copy_half)):
         ex.overrides.append((re.compile(rx), f))
     ctx = Ref(st.alloc(Opaque('tokio::sync::RwLock<context::Context>', 'ctx')), ())
     params = Ref(st.alloc(Opaque('IoParams', 'params')), ())
     outs = run_async(ex, st, fn, [ctx, params])
-    n_ok = 0
+    n_ok = n_err = 0
     for o, r in outs:
         if o.status != 'returned' or r is None:
             continue
         states = [e[1] for e in o.trace if e[0] == 'set_state']
+        ended = [e for e in o.trace if e[0] == 'half-ended']
+        if any(e[2] == 'err' for e in ended):
+            # whichever direction fails, and whenever (also after the other one has ended cleanly): the relay did not finish cleanly
+            n_err += 1
+            ok, _ = _ok_payload(r)
+            ex.prove(o, 'C04/copy_bidi/a-direction-that-ended-with-an-error-is-never-reported-as-a-clean-finish',
+                     z3.BoolVal(True) if _is_err_concrete(r) else z3.Not(ok))
+            continue
         if _is_err_concrete(r):
             continue
         ok, _ = _ok_payload(r)
         n_ok += 1
         ex.prove(o, 'C04/copy_bidi/finished-only-after-both-directions-ended', z3.Implies(ok, z3.BoolVal(sorted(states) == ['ClientShutdown', 'ServerShutdown'])))
+        ex.prove(o, 'C04/copy_bidi/finished-only-after-both-directions-ended', z3.Implies(ok, z3.BoolVal(sorted(e[1] for e in ended) == [0, 1])))
     if not n_ok:
         ck.add('C04/copy_bidi/reachability', 'vacuous', 'no path through copy_bidi finishes')
+    if not n_err:
+        ck.add('C04/copy_bidi/error-reachability', 'vacuous', 'no path through copy_bidi on which a direction ends with an error')
     ck.absorb(ex, 'copy_bidi (completion)', [o for o, _ in outs])
     ck.bounds['copy_bidi-completion'] = 'copy_bidi with both copy_half futures arbitrary (each poll: not ready, Ok or Err), <= 3 turns of the select loop'
 
